@@ -15,7 +15,10 @@ import (
 	"sync/atomic"
 	"time"
 
+	"github.com/thomasjungblut/go-sstables/recordio"
+	rProto "github.com/thomasjungblut/go-sstables/recordio/proto"
 	"github.com/thomasjungblut/go-sstables/simpledb"
+	"github.com/thomasjungblut/go-sstables/sstables"
 )
 
 // ---- engine "db": executes abstract SimpleDB programs (sequential placements of rotation / flush / compaction / restart and
@@ -38,6 +41,9 @@ type dbStep struct {
 	Clients    [][]dbStep `json:"clients"`
 	Flavor     string     `json:"flavor"` // "bytes" (default) or "string"
 	Async      bool       `json:"async"`  // EnableAsyncWAL
+	Match      string     `json:"match"`  // failwrites: substring of the writer's base path
+	Which      string     `json:"which"`  // failwrites: data | index
+	Pos        int        `json:"pos"`    // failwrites: position of the failing append
 	KC         string     `json:"kc"`     // argument class of the key for putx/delx/getx: nil | empty | ok
 	VC         string     `json:"vc"`     // argument class of the value for putx
 }
@@ -370,6 +376,21 @@ func (x *dbExec) step(db *simpledb.DB, s dbStep, g int) (*simpledb.DB, error) {
 		x.argClassCall(db, s, g)
 	case "crashcheck":
 		x.crashCheck(db, s)
+	case "failwrites":
+		// from now on, stream writers whose directory matches fail their pos-th data / index append (C11)
+		st := s
+		sstables.VerifOnWriterOpen = func(w *sstables.SSTableStreamWriter) {
+			if !strings.Contains(w.VerifBasePath(), st.Match) {
+				return
+			}
+			hit := new(bool)
+			if st.Which == "data" {
+				w.VerifWrapWriters(func(d recordio.WriterI) recordio.WriterI { return &countingFailData{WriterI: d, at: st.Pos, hit: hit} }, nil)
+			} else {
+				w.VerifWrapWriters(nil, func(i rProto.WriterI) rProto.WriterI { return &countingFailIndex{WriterI: i, at: st.Pos, hit: hit} })
+			}
+			rec.emit(M{"t": "note", "name": "failwrites armed for " + filepath.Base(w.VerifBasePath())})
+		}
 	case "rotate":
 		if err := db.VerifRotate(); err != nil {
 			rec.emit(M{"t": "bgfail", "msg": "rotate failed: " + err.Error()})
